@@ -1,0 +1,262 @@
+//go:build verif
+// +build verif
+
+package main
+
+// Schedule-replay driver for the /verif harness (compiled only with -tags verif).
+// It reads cases from the file named by VERIF_C20_IN, one per line:
+//
+//	<map> <thread ops>;<thread ops>;... <schedule>
+//
+// <map> is "fs" (frameSetMap) or "seq" (fileSeqMap); ops are A (add), I<k>,
+// D<k>, G<k> (incref / decref / get on the k-th handle created), L (len),
+// S<kind> (kind 0/1/2: incref / decref / get on an unknown id); the schedule is
+// a comma-separated list of thread indices, each entry letting that thread run
+// up to its next yield point (or the end of its current operation).  One result
+// line per case is written to VERIF_C20_OUT.
+
+import (
+	"bufio"
+	"fmt"
+	"os"
+	"runtime"
+	"strconv"
+	"strings"
+	"sync"
+	"sync/atomic"
+	"testing"
+
+	fileseq "github.com/justinfx/gofileseq/v2"
+)
+
+type vthread struct {
+	ops    []string
+	grant  chan struct{}
+	paused chan bool // true = finished every operation
+}
+
+func goid() int64 {
+	var buf [64]byte
+	n := runtime.Stack(buf[:], false)
+	f := strings.Fields(string(buf[:n]))
+	id, _ := strconv.ParseInt(f[1], 10, 64)
+	return id
+}
+
+type tableOps struct {
+	add    func() uint64
+	incref func(uint64)
+	decref func(uint64)
+	get    func(uint64) (uint32, bool)
+	length func() int
+}
+
+func runCase(line string) string {
+	f := strings.Split(line, " ")
+	if len(f) != 3 {
+		return "BADCASE"
+	}
+	var tab tableOps
+	if f[0] == "fs" {
+		fset, _ := fileseq.NewFrameSet("1-10")
+		tab = tableOps{
+			add:    func() uint64 { return uint64(sFrameSets.Add(*fset)) },
+			incref: func(id uint64) { sFrameSets.Incref(FrameSetId(id)) },
+			decref: func(id uint64) { sFrameSets.Decref(FrameSetId(id)) },
+			get: func(id uint64) (uint32, bool) {
+				r, ok := sFrameSets.Get(FrameSetId(id))
+				if !ok {
+					return 0, false
+				}
+				return atomic.LoadUint32(&r.refs), true
+			},
+			length: func() int { return sFrameSets.Len() },
+		}
+	} else {
+		seq, _ := fileseq.NewFileSequence("/a/foo.1-10#.exr")
+		tab = tableOps{
+			add:    func() uint64 { return uint64(sFileSeqs.Add(seq)) },
+			incref: func(id uint64) { sFileSeqs.Incref(FileSeqId(id)) },
+			decref: func(id uint64) { sFileSeqs.Decref(FileSeqId(id)) },
+			get: func(id uint64) (uint32, bool) {
+				r, ok := sFileSeqs.Get(FileSeqId(id))
+				if !ok {
+					return 0, false
+				}
+				return atomic.LoadUint32(&r.refs), true
+			},
+			length: func() int { return sFileSeqs.Len() },
+		}
+	}
+	len0 := tab.length()
+	var threads []*vthread
+	for _, spec := range strings.Split(f[1], ";") {
+		t := &vthread{grant: make(chan struct{}), paused: make(chan bool)}
+		if spec != "-" && spec != "" {
+			t.ops = strings.Split(spec, ",")
+		}
+		threads = append(threads, t)
+	}
+	var mu sync.Mutex
+	byGid := map[int64]*vthread{}
+	var slots []uint64
+	var logb []string
+	verifHook = func(point int) {
+		mu.Lock()
+		t := byGid[goid()]
+		mu.Unlock()
+		if t == nil {
+			return
+		}
+		t.paused <- false
+		<-t.grant
+	}
+	slot := func(k int) uint64 {
+		if k < 0 || k >= len(slots) {
+			return 0
+		}
+		return slots[k]
+	}
+	for ti, t := range threads {
+		ti, t := ti, t
+		go func() {
+			mu.Lock()
+			byGid[goid()] = t
+			mu.Unlock()
+			for _, op := range t.ops {
+				<-t.grant
+				k := 0
+				if len(op) > 1 {
+					k, _ = strconv.Atoi(op[1:])
+				}
+				switch op[0] {
+				case 'A':
+					id := tab.add()
+					slots = append(slots, id)
+				case 'I':
+					tab.incref(slot(k))
+				case 'D':
+					tab.decref(slot(k))
+				case 'G':
+					_, ok := tab.get(slot(k))
+					v := 0
+					if ok {
+						v = 1
+					}
+					logb = append(logb, fmt.Sprintf("%d:1:%d", ti, v))
+				case 'L':
+					logb = append(logb, fmt.Sprintf("%d:2:%d", ti, tab.length()-len0))
+				case 'S':
+					const unknown = 424242
+					switch k {
+					case 0:
+						tab.incref(unknown)
+					case 1:
+						tab.decref(unknown)
+					default:
+						_, ok := tab.get(unknown)
+						v := 0
+						if ok {
+							v = 1
+						}
+						logb = append(logb, fmt.Sprintf("%d:1:%d", ti, v))
+					}
+				}
+				t.paused <- false
+			}
+			<-t.grant
+			t.paused <- true
+		}()
+	}
+	// thread state as seen by the scheduler
+	done := make([]bool, len(threads))
+	remaining := make([]int, len(threads)) // operations not yet completed
+	for i, t := range threads {
+		remaining[i] = len(t.ops)
+	}
+	step := func(i int) {
+		if i < 0 || i >= len(threads) || done[i] {
+			return
+		}
+		t := threads[i]
+		t.grant <- struct{}{}
+		fin := <-t.paused
+		if fin {
+			done[i] = true
+		}
+	}
+	_ = remaining
+	if f[2] != "-" {
+		for _, s := range strings.Split(f[2], ",") {
+			i, _ := strconv.Atoi(s)
+			step(i)
+		}
+	}
+	// let everybody finish (the schedules sent by the harness are long enough; this is a safety net)
+	for guard := 0; guard < 10000; guard++ {
+		all := true
+		for i := range threads {
+			if !done[i] {
+				all = false
+				step(i)
+			}
+		}
+		if all {
+			break
+		}
+	}
+	verifHook = nil
+	var sl []string
+	for _, id := range slots {
+		refs, ok := tab.get(id)
+		if ok {
+			sl = append(sl, strconv.Itoa(int(refs)))
+		} else {
+			sl = append(sl, "x")
+		}
+	}
+	nonzero := true
+	seen := map[uint64]bool{}
+	for _, id := range slots {
+		if id == 0 || seen[id] {
+			nonzero = false
+		}
+		seen[id] = true
+	}
+	res := fmt.Sprintf("OK len=%d slots=%s log=%s ids=%v", tab.length()-len0, strings.Join(sl, ","), strings.Join(logb, ","), nonzero)
+	// leave the table as we found it
+	for _, id := range slots {
+		for {
+			if _, ok := tab.get(id); !ok {
+				break
+			}
+			tab.decref(id)
+		}
+	}
+	return res
+}
+
+func TestVerifSchedules(t *testing.T) {
+	in := os.Getenv("VERIF_C20_IN")
+	out := os.Getenv("VERIF_C20_OUT")
+	if in == "" || out == "" {
+		t.Skip("VERIF_C20_IN / VERIF_C20_OUT not set")
+	}
+	fi, err := os.Open(in)
+	if err != nil {
+		t.Fatal(err)
+	}
+	defer fi.Close()
+	fo, err := os.Create(out)
+	if err != nil {
+		t.Fatal(err)
+	}
+	defer fo.Close()
+	w := bufio.NewWriter(fo)
+	defer w.Flush()
+	sc := bufio.NewScanner(fi)
+	sc.Buffer(make([]byte, 1<<20), 1<<20)
+	for sc.Scan() {
+		fmt.Fprintln(w, runCase(sc.Text()))
+	}
+}
